@@ -22,7 +22,9 @@ DESC = {
  "C05": ("five_card_hand_rank = the rules' key for every list of five distinct cards in every order (kernel-evaluated table over all "
          "6,188 rank multisets x flush flag + permutation-invariance lemmas), order independence, suit blindness", "§7 C05"),
  "C06": ("brute-force Omaha and Hold'em strength = best key among exactly the 60 / 21 legal five-card hands (structural); size guards. "
-         "NOT proved: optimised Omaha evaluator = brute force (covered by model + spec correspondence only)", "§7 C06"),
+         "optimised Omaha evaluator = the rules' strength = brute force on every valid deal (omaha_fast_eq_spec / _eq_brute: structural "
+         "decomposition into a suit-free and a flush part, order independence, and two finite tables -- 10,995,985 rank patterns and "
+         "503,217 flush patterns -- evaluated by compiled code: 70 native_decide axioms, the only ones in the project)", "§7 C06, §0"),
  "C07": ("get_best_hands_generic returns tiers that partition the contenders, group equal strengths and are strictly descending; "
          "mapping back to seats; fold-out and showdown payouts are the (averaged) side-pot settlements under those tiers; run-out "
          "boards are five distinct cards disjoint from hole cards", "§7 C07"),
@@ -52,7 +54,7 @@ def main():
     claimed = []
     for pid in ALL:
         what, ref = DESC[pid]
-        has_thms = os.path.exists(os.path.join(HERE, "lean", "CardVerif", "Audit", f"{pid}.lean")) and pid != "C06"
+        has_thms = os.path.exists(os.path.join(HERE, "lean", "CardVerif", "Audit", f"{pid}.lean"))
         impl_ok = os.path.exists(os.path.join(HERE, "harness")) and pid in REGISTERED
         if not impl_ok:
             continue
@@ -79,7 +81,10 @@ def main():
             "replay_cmd_template": "python3 check.py --replay {path}",
             "engine": "lean4-model+correspondence",
             "level_claimed": {"category": cat, "text": text, "design_ref": "DESIGN.md " + ref},
-            "level_note": ("Trusted: Lean 4.33 kernel, axioms propext/Classical.choice/Quot.sound only; the Lean Spec/ definitions as the formal "
+            "level_note": (("Trusted IN ADDITION for this property only: the Lean compiler and the native code of the CardModel library "
+                            "(70 `native_decide` table chunks, axioms OmahaD.tabR_*/tabF_*._native.native_decide.ax_*), used by omaha_fast_eq_spec "
+                            "and its corollaries; the other C06 theorems use the three standard axioms only. " if pid == "C06" else "") +
+                           "Trusted: Lean 4.33 kernel, axioms propext/Classical.choice/Quot.sound only; the Lean Spec/ definitions as the formal "
                            "reading of the statement; the correspondence is differential testing (its reach is reported in the evidence, "
                            "not asserted); CPython semantics listed in DESIGN.md §6; payout floats compared at 1e-9; randomness injected."),
             "technique": tech,
